@@ -899,6 +899,10 @@ class GroupBy:
         for i in range(n_values):
             slice_ = slice(i * len(group_keys), (i + 1) * len(group_keys))
             results_one_value = results[slice_]
+            time_dtype = results_one_value[0].dtype
+            if time_dtype.kind in "mM":
+                # the kernels work on the int64 view of datetime/timedelta values
+                results_one_value = [r.view("int64") for r in results_one_value]
             combined = numba_funcs._build_target_for_groupby(
                 results_one_value[0].dtype,
                 func_name,
@@ -926,6 +930,8 @@ class GroupBy:
                 # the counts are the result (the target of a count is a dummy);
                 # keep the trailing slot for null keys
                 combined = np.append(count, 0)
+            elif time_dtype.kind in "mM":
+                combined = combined.view(time_dtype)
             individual_results.append((combined, count))
 
         return individual_results
